@@ -33,8 +33,20 @@ def run(rep, module, shard, eligible, mutate, n=30, cfg=None):
             raise ToolError("canary: TLC error:\n" + r.error)
         return r
     r0 = tlc_on("orig", evs)
-    if r0.bad or r0.unconsumed or r0.invariant:
-        raise ToolError("canary: the unmodified canary events are not accepted (events %s)" % r0.bad)
+    if r0.unconsumed or r0.invariant:
+        raise ToolError("canary: the unmodified canary events are not consumed")
+    if r0.bad:
+        # events the specification rejects as recorded are violations reported by the main validation
+        # (they are in the shard); the canary needs ACCEPTED events: drop them and re-check the rest
+        evs = [e for i, e in enumerate(evs) if i + 1 not in r0.bad]
+        if not evs:
+            if rep.violations:
+                rep.notes.append("canary skipped: every candidate event of this run is itself rejected (see violations)")
+                return False
+            raise ToolError("canary: no accepted event to corrupt")
+        r0 = tlc_on("orig", evs)
+        if r0.bad or r0.unconsumed or r0.invariant:
+            raise ToolError("canary: the unmodified canary events are not accepted (events %s)" % r0.bad)
     idx = mutate(evs)
     if idx is None:
         raise ToolError("canary: mutate found nothing to corrupt")
